@@ -65,7 +65,7 @@ class CompactEncoder(json.JSONEncoder):
     """The usual recipe for keeping the output on one line per record: encode() is overridden (iterencode() is not)."""
 
     def encode(self, o):
-        return super(CompactEncoder, self).encode(o).replace("\n", " ").replace("[ ", "[").replace(" ]", "]") + " "
+        return super(CompactEncoder, self).encode(o) + "\n"  # (a real one would re-flow the text; all that matters here is that encode() is the hook used by dumps)
 
 
 class TaggingEncoder(json.JSONEncoder):
